@@ -1174,6 +1174,10 @@ func run(r *enumx.Run, replay *enumx.ReplayCase) {
 	phaseWall := map[string]float64{}
 	phase := func(desc string, reqs []unitReq) {
 		t0 := time.Now()
+		if r.Expired() {
+			r.Incomplete(desc + ": not started, budget used up")
+			return
+		}
 		done := pl.run(reqs)
 		phaseWall[strings.SplitN(desc, " ", 2)[0]] = time.Since(t0).Seconds()
 		if done < len(reqs) {
@@ -1245,6 +1249,9 @@ func run(r *enumx.Run, replay *enumx.ReplayCase) {
 			if herr[i] != nil {
 				panic(herr[i])
 			}
+			if zi == nil { // budget used up before the zones were scanned
+				continue
+			}
 			for _, sp := range horizonSpecs {
 				jobs = append(jobs, job{zi, horizonCenturies[i%len(horizonCenturies)], sp})
 			}
@@ -1278,6 +1285,9 @@ func run(r *enumx.Run, replay *enumx.ReplayCase) {
 		for i, j := range jumps {
 			if jerr[i] != nil {
 				panic(jerr[i])
+			}
+			if jz[i] == nil { // budget used up before the zones were scanned
+				continue
 			}
 			from, to := jumpEra(j.at)
 			specs := jumpSpecs(jz[i], j)
